@@ -7,7 +7,7 @@ OBLIGATIONS = dict(
     prop_file='Properties/C10.v',
     glue=[f'Glue/Pin_{n}.v' for n in ('pat_vq_forward', 'pat_vq_split', 'pat_vq_decode', 'pat_euclid_forward', 'pat_cosine_forward', 'pat_fsq_forward', 'pat_fsq_decode',
                                       'pat_lfq_forward', 'pat_lfq_decode', 'pat_rvq_decode', 'pat_simvq_forward')],
-    extra=['Model/Layout.vo'],
+    extra=['Model/Layout.vo', 'Model/Forward.vo'],
     gen_items=['pat_vq_forward', 'pat_vq_split', 'pat_vq_decode', 'pat_euclid_forward', 'pat_cosine_forward', 'pat_fsq_forward', 'pat_fsq_decode', 'pat_lfq_forward',
                'pat_lfq_decode', 'pat_rvq_decode', 'pat_simvq_forward'],
 )
@@ -15,8 +15,8 @@ ASSUMPTIONS = [
     'einops / einx rearrange semantics = row-major grouped axes (the index maps of Model/Layout.v); compared with einops itself on index-labelled tensors for the patterns found at the anchored sites, on several extents per pattern',
     'nn.Linear / LayerNorm / SiLU act on the last axis (position-wise); BLAS may reassociate sums when the batch shape changes, so projected outputs are compared within 1e-6 and indices exactly away from near-ties',
 ]
-HEADER = '''From Coq Require Import ZArith Arith List Bool.
-From VQ Require Import Model.Layout.
+HEADER = '''From Coq Require Import ZArith QArith Arith List Bool.
+From VQ Require Import Num Model.Vec Model.Core Model.CoreCheck Model.Layout Model.Forward.
 Import ListNotations.
 '''
 
@@ -44,7 +44,7 @@ def pattern_cases(ctx, failures):
         return torch.arange(n).reshape(*shape)
 
     def add(term, got, m):
-        cases.append(f'(if list_eq_dec Nat.eq_dec ({term}) {natlist(got.reshape(-1).tolist())} then 0 else 1)')
+        cases.append(f'(if list_eq_dec Nat.eq_dec ({term}) {natlist(got.reshape(-1).tolist())} then 0 else 1)%nat')
         meta.append(m)
 
     for (B, C, Hh, W) in ((1, 1, 1, 1), (2, 3, 2, 4), (1, 2, 3, 1), (2, 1, 1, 5)):
@@ -76,6 +76,67 @@ def pattern_cases(ctx, failures):
             add(f'tab4 {B} {N} {Cn} {D} (cb_split {D} (lab3 {N} {Cn * D}))', rearrange(lab(B, N, Cn * D), 'b n (c d) -> b n c d', c=Cn), dict(pat='b n (c d) -> b n c d', shape=(B, N, Cn, D)))
         if need('fsq', 'b n c d -> b n (c d)'):
             add(f'tab3 {B} {N} {Cn * D} (cb_merge {D} (lab4 {N} {Cn} {D}))', rearrange(lab(B, N, Cn, D), 'b n c d -> b n (c d)'), dict(pat='b n c d -> b n (c d)', shape=(B, N, Cn, D)))
+    return cases, meta
+
+
+def forward_model_cases(ctx, rng, failures):
+    """the executable end-to-end model (Model/Forward.v: layout index maps + assignment) run over Q on the implementation's own inputs and
+    codebooks: indices must be equal, quantized values equal within 1e-6 (evaluation mode, no projection)"""
+    import torch
+    from vlib.core import qlit, qmat
+    from vector_quantize_pytorch import VectorQuantize
+    cases, meta = [], []
+
+    def nested(t):
+        return t.double().tolist()
+
+    def q3(l):
+        return '[' + '; '.join(qmat(m) for m in l) + ']'
+
+    def q4(l):
+        return '[' + '; '.join(q3(m) for m in l) + ']'
+    combos = [(lay, hm, cos) for lay in ('seq', 'cfirst', 'image') for hm in ('OneHead', 'SharedHeads', 'SeparateHeads') for cos in (False, True)]
+    n = len(combos) if not ctx.thorough else 3 * len(combos)
+    for ci in range(n):
+        lay, hm, cos = combos[ci % len(combos)]
+        H = 1 if hm == 'OneHead' else rng.choice([2, 3])
+        D = rng.choice([1, 2])
+        K = rng.choice([2, 4])
+        vq = VectorQuantize(dim=H * D, codebook_dim=D, heads=H, separate_codebook_per_head=(hm == 'SeparateHeads'), codebook_size=K, use_cosine_sim=cos,
+                            channel_last=(lay != 'cfirst'), accept_image_fmap=(lay == 'image'))
+        vq.eval()
+        B, N = 2, 3
+        Hh, W = 3, 2
+        if lay == 'seq':
+            x = torch.randn(B, N, H * D)
+        elif lay == 'cfirst':
+            x = torch.randn(B, H * D, N)
+        else:
+            x = torch.randn(B, H * D, Hh, W)
+        if cos:
+            # the model scores the vectors it is given: hand it unit-norm head slices so that the module's own normalisation is the identity up to rounding
+            xs = x if lay == 'seq' else x.movedim(1, -1)
+            shp = xs.shape
+            xs = torch.nn.functional.normalize(xs.reshape(*shp[:-1], H, D), dim=-1).reshape(shp)
+            x = xs if lay == 'seq' else xs.movedim(-1, 1).contiguous()
+        with torch.no_grad():
+            out, idx, _ = vq(x)
+        cbs = [vq._codebook.embed[h].double().tolist() for h in range(vq._codebook.embed.shape[0])]
+        cb_term = '[' + '; '.join(qmat(c) for c in cbs) + ']'
+        ii = idx.reshape(-1).tolist()
+        oo = out.reshape(-1).double().tolist()
+        cosb = 'true' if cos else 'false'
+        if lay == 'seq':
+            mi = f'fwd_seq_indices {cosb} {hm} {B} {N} {H} {D} {cb_term} {q3(nested(x))}'
+            mq = f'fwd_seq_quantized {cosb} {hm} {B} {N} {H} {D} {cb_term} {q3(nested(x))}'
+        elif lay == 'cfirst':
+            mi = f'fwd_cfirst_indices {cosb} {hm} {B} {N} {H} {D} {cb_term} {q3(nested(x))}'
+            mq = f'fwd_cfirst_quantized {cosb} {hm} {B} {N} {H} {D} {cb_term} {q3(nested(x))}'
+        else:
+            mi = f'fwd_image_indices {cosb} {hm} {B} {Hh} {W} {H} {D} {cb_term} {q4(nested(x))}'
+            mq = f'fwd_image_quantized {cosb} {hm} {B} {Hh} {W} {H} {D} {cb_term} {q4(nested(x))}'
+        cases.append(f'fwd_check {qlit(1e-6)} ({mi}) {natlist(ii)} ({mq}) [{"; ".join(qlit(v) for v in oo)}]')
+        meta.append(dict(pat='forward-model', shape=(lay, hm, cos, H, D, K), layout=lay, heads=hm, cosine=cos))
     return cases, meta
 
 
@@ -168,8 +229,11 @@ def correspond(ctx, scale):
     rng = ctx.rng
     failures, samples = [], []
     cases, meta = pattern_cases(ctx, failures)
+    fc, fm = forward_model_cases(ctx, rng, failures)
+    n_pattern = len(cases)
+    cases, meta = cases + fc, meta + fm
     ev = nt = 0
-    dist = {'pattern_cases': len(cases), 'permute': 0, 'split_concat': 0, 'single_vs_batch': 0, 'layout_equiv': 0}
+    dist = {'pattern_cases': n_pattern, 'forward_model_cases': len(fc), 'permute': 0, 'split_concat': 0, 'single_vs_batch': 0, 'layout_equiv': 0}
     reps = (2 if not ctx.thorough else 10) * scale
 
     def same(a, b, what, key, info, exact_idx=True):
@@ -266,6 +330,10 @@ def correspond(ctx, scale):
     for name, out in broken:
         failures.append({'key': f'coq-eval:{name}', 'what': 'case file did not evaluate: ' + out, 'case': {'file': name}})
     for i, code in sorted(bad.items()):
+        if meta[i]['pat'] == 'forward-model':
+            failures.append({'key': f'forward-model:{meta[i]["layout"]}:{meta[i]["heads"]}:code{code}', 'what': f'VectorQuantize eval forward ({meta[i]["layout"]}, {meta[i]["heads"]}, cosine={meta[i]["cosine"]}): '
+                             + ('returned indices' if code == 1 else 'quantized values') + ' differ from the end-to-end model (layout index maps + nearest code) evaluated in Coq', 'case': dict(meta[i], term=cases[i][:30000])})
+            continue
         failures.append({'key': f'pattern:{meta[i]["pat"]}', 'what': f'the model\'s index map for {meta[i]["pat"]!r} differs from einops on shape {meta[i]["shape"]}', 'case': meta[i]})
     return {'evaluations': ev + len(cases), 'distinct_nontrivial': nt,
             'rule': 'einops on index-labelled tensors vs the model\'s index maps (evaluated in Coq) for every pattern at the anchored sites x several extents; metamorphic pairs on 17 module configurations x layouts in eval / frozen mode: '
